@@ -169,6 +169,29 @@ func vC13ConfigEntries(withPeer bool) {
 		verifrt.Assert("C13.config.decision-by-source.no-error", err == nil)
 		verifrt.Assert("C13.config.decision-by-source.most-specific-wins", got.Allowed == want)
 	}
+	// path C (match by source with the wildcard name, e.g. /v1/connect/intentions/match?by=source&name=*):
+	// exactly the local intentions whose source is the wildcard, in precedence order
+	if srcPeer == "" {
+		_, byWild, err := s.IntentionMatchOne(nil, structs.IntentionMatchEntry{Namespace: "default", Partition: "default", Name: structs.WildcardSpecifier},
+			structs.IntentionMatchSource, structs.IntentionTargetService)
+		verifrt.Assert("C13.config.match-wildcard-source.no-error", err == nil)
+		nW, nGot := 0, 0
+		for _, x := range all {
+			if x.SourcePeer == "" && x.SourceName == structs.WildcardSpecifier {
+				nW++
+			}
+		}
+		for _, x := range byWild {
+			if x.SourcePeer == "" {
+				nGot++
+			}
+			verifrt.Assert("C13.config.match-wildcard-source.only-wildcard-sources", x.SourceName == structs.WildcardSpecifier)
+		}
+		verifrt.Assert("C13.config.match-wildcard-source.complete", nGot == nW)
+		for i := 1; i < len(byWild); i++ {
+			verifrt.Assert("C13.config.match-wildcard-source.in-precedence-order", vRank(byWild[i-1]) >= vRank(byWild[i]))
+		}
+	}
 	if best < 0 {
 		verifrt.Reached("default")
 	} else {
